@@ -45,78 +45,320 @@ func handleEnders(c *core.Check) map[*core.Func]bool {
 	})
 }
 
+// c26Ctx holds the resolved anchors of the loader.
+type c26Ctx struct {
+	c        *core.Check
+	handles  *types.Var // Runtime.handles
+	handleMu *types.Var // Runtime.handleMu
+	hHash    *types.Var // vmHandle.contentHash
+	hVM      *types.Var // vmHandle.vm
+	hLines   *types.Var // vmHandle.lines
+	calls    c25Calls
+}
+
+// isHandles reports whether e denotes the handle map of a Runtime.
+func (x *c26Ctx) isHandles(f *core.Func, e ast.Expr) bool {
+	return x.handles != nil && fieldOf(f.Info(), resolveAlias(f, e)) == x.handles
+}
+
+// handleOp reports whether n ends or replaces a running version directly:
+// close of a handle's lines channel, delete from / store into the handle map.
+func (x *c26Ctx) handleOp(f *core.Func, n ast.Node) bool {
+	switch s := n.(type) {
+	case *ast.CallExpr:
+		switch f.CalleeID(s) {
+		case "builtin.close":
+			return len(s.Args) == 1 && x.hLines != nil && fieldOf(f.Info(), resolveAlias(f, s.Args[0])) == x.hLines
+		case "builtin.delete":
+			return len(s.Args) == 2 && x.isHandles(f, s.Args[0])
+		}
+	case *ast.AssignStmt:
+		for _, l := range s.Lhs {
+			if ix, ok := core.Unparen(l).(*ast.IndexExpr); ok && x.isHandles(f, ix.X) {
+				return true
+			}
+		}
+	}
+	return false
+}
+
+// enders: declared functions of package runtime that (transitively) perform a handleOp.
+func (x *c26Ctx) enders() map[*core.Func]bool {
+	return x.c.Prog.Reaching(func(f *core.Func) bool {
+		if core.Rel(f.Pkg.PkgPath) != "internal/runtime" {
+			return false
+		}
+		found := false
+		ast.Inspect(f.Body, func(n ast.Node) bool {
+			if x.handleOp(f, n) {
+				found = true
+			}
+			return !found
+		})
+		return found
+	})
+}
+
+// origins resolves where the value of e comes from: through locals with a
+// single definition and through parameters (to the argument at every call
+// site in shipped code), stopping at the parameters of stop.  It returns the
+// terminal expressions with the function they occur in; ok is false when a
+// parameter has no call site or the depth limit is hit.
+type c26Origin struct {
+	fn *core.Func
+	e  ast.Expr
+}
+
+func (x *c26Ctx) origins(f *core.Func, e ast.Expr, stop *core.Func, depth int) (out []c26Origin, ok bool) {
+	e = resolveLocal(f, e)
+	id, isID := e.(*ast.Ident)
+	if !isID || depth > 3 {
+		return []c26Origin{{f, e}}, depth <= 3
+	}
+	o := identObj(f.Info(), id)
+	decl := f
+	for decl.Parent != nil {
+		decl = decl.Parent
+	}
+	idx := paramIndexOf(decl, o)
+	if idx < 0 || decl == stop || assignedIn(decl, o) {
+		return []c26Origin{{f, e}}, true
+	}
+	sites := x.calls[decl]
+	if len(sites) == 0 {
+		return []c26Origin{{f, e}}, false
+	}
+	ok = true
+	for _, s := range sites {
+		if idx >= len(s.call.Args) {
+			return nil, false
+		}
+		sub, sok := x.origins(s.fn, s.call.Args[idx], stop, depth+1)
+		out = append(out, sub...)
+		ok = ok && sok
+	}
+	return out, ok
+}
+
+// allOrigins reports whether every origin of e satisfies pred (and there is at least one).
+func (x *c26Ctx) allOrigins(f *core.Func, e ast.Expr, stop *core.Func, pred func(fn *core.Func, e ast.Expr) bool) bool {
+	if e == nil {
+		return false
+	}
+	os, ok := x.origins(f, e, stop, 0)
+	if !ok || len(os) == 0 {
+		return false
+	}
+	for _, o := range os {
+		if !pred(o.fn, o.e) {
+			return false
+		}
+	}
+	return true
+}
+
+func isCallTo(fn *core.Func, e ast.Expr, match func(id string, call *ast.CallExpr) bool) bool {
+	call, ok := core.Unparen(e).(*ast.CallExpr)
+	return ok && match(fn.CalleeID(call), call)
+}
+
+func isSumCall(fn *core.Func, e ast.Expr) bool {
+	return isCallTo(fn, e, func(id string, _ *ast.CallExpr) bool { return id == "hash.Hash.Sum" || strings.HasSuffix(id, ".Sum") })
+}
+
+// ancestors returns the chain of nodes from root down to target (inclusive), or nil.
+func ancestors(root, target ast.Node) []ast.Node {
+	var stack, found []ast.Node
+	ast.Inspect(root, func(n ast.Node) bool {
+		if found != nil {
+			return false
+		}
+		if n == nil {
+			stack = stack[:len(stack)-1]
+			return false
+		}
+		stack = append(stack, n)
+		if n == target {
+			found = append([]ast.Node{}, stack...)
+			return false
+		}
+		return true
+	})
+	return found
+}
+
+// shortCircuit reports whether target, inside the CFG node root, is only
+// evaluated when the fact of gd holds, by short-circuit evaluation
+// (`h != nil && h.f`, `h == nil || h.f`).
+func shortCircuit(gd *guard, f *core.Func, root, target ast.Node) bool {
+	chain := ancestors(root, target)
+	for i, n := range chain {
+		be, ok := n.(*ast.BinaryExpr)
+		if !ok || i+1 >= len(chain) || chain[i+1] != ast.Node(be.Y) {
+			continue
+		}
+		t, fl := gd.expr(f, be.X, nil, 0)
+		if (be.Op == token.LAND && t) || (be.Op == token.LOR && fl) {
+			return true
+		}
+	}
+	return false
+}
+
 func c26(c *core.Check) {
-	c.Explain = "Decides structural necessary conditions of C26 on the program loader: (R1) a file is opened only after the dot-prefix and the .mtail-extension tests on its base name, and directory entries that are directories never reach LoadProgram; (R2) the set of programs to unload is seeded from every loaded name under the handle lock, an entry is unmarked only for a non-directory entry of the listing and by that entry's base name, and every remaining name is unloaded; (R3) a load that fails never ends or replaces the running version; (R4) every dereference of a handle looked up by name is guarded by the lookup's ok result or happens while ranging over the map; (R5) on success the handle installed for the name is a fresh one built from this call's content hash, VM and channel, and a handle's fields are never updated piecemeal. All paths of the current source are covered; file-system races and what Compile accepts are not decided."
-	c.Assume = append(c.Assume, "os.ReadDir lists the directory; filepath.Base/Ext as documented")
+	c.Explain = "Decides structural necessary conditions of C26 on the program loader: (R1) a file is opened only after the dot-prefix and the .mtail-extension tests on its base name, and directory entries that are directories never reach LoadProgram; (R2) the set of programs to unload is seeded from every loaded name under the handle lock, an entry is unmarked only for a non-directory entry of the listing and by that entry's base name, and every remaining name is unloaded; (R3) a load that fails never ends or replaces the running version; (R4) every dereference of a handle looked up by name is guarded by the lookup's ok result or a nil test of the looked-up pointer, or happens while ranging over the map; (R5) on success the handle installed for the name is a fresh one built from this call's content hash, VM and channel, and a handle's fields are never updated piecemeal. Tests are recognised in any branch shape (if / switch / negated / short-circuit / boolean helper function); variables, fields, parameters and callees are resolved through go/types, never by name. All paths of the current source are covered; file-system races and what Compile accepts are not decided."
+	c.Assume = append(c.Assume, "os.ReadDir lists the directory; filepath.Base/Ext as documented (filepath.Ext(n) == \".mtail\" iff strings.HasSuffix(n, \".mtail\"))",
+		"the handle map holds no nil pointers (every store is a fresh &vmHandle literal, R5), so a nil test of a looked-up handle is equivalent to the lookup's ok result")
 	lp := c.MustFn("C26-R1", loadProgram)
 	la := c.MustFn("C26-R1", loadAllPrograms)
 	car := c.MustFn("C26-R3", compileAndRun)
 	if lp == nil || la == nil || car == nil {
 		return
 	}
+	x := &c26Ctx{c: c, calls: c25CallIndex(c),
+		handles:  structField(c, "internal/runtime", "Runtime", "handles"),
+		handleMu: structField(c, "internal/runtime", "Runtime", "handleMu"),
+		hHash:    structField(c, "internal/runtime", "vmHandle", "contentHash"),
+		hVM:      structField(c, "internal/runtime", "vmHandle", "vm"),
+		hLines:   structField(c, "internal/runtime", "vmHandle", "lines")}
+	for n, v := range map[string]*types.Var{"Runtime.handles": x.handles, "Runtime.handleMu": x.handleMu, "vmHandle.contentHash": x.hHash, "vmHandle.vm": x.hVM, "vmHandle.lines": x.hLines} {
+		if v == nil {
+			c.Undecided("C26-R1", "field "+n, "-", "anchor field not found in package runtime")
+		}
+	}
 
 	// R1
-	c.Rule("C26-R1", "ELIGIBLE-BEFORE-OPEN: in LoadProgram every path to os.OpenFile (and to CompileAndRun) passes both `strings.HasPrefix(base, \".\")` and `filepath.Ext(base) != \".mtail\"` tests, whose true branches cannot reach it; in LoadAllPrograms every path to LoadProgram inside the listing loop passes the IsDir test, whose true branch cannot reach it")
+	c.Rule("C26-R1", "ELIGIBLE-BEFORE-OPEN: in LoadProgram every path to os.OpenFile (and to CompileAndRun) takes the not-hidden outcome of a `strings.HasPrefix(base, \".\")` test and the is-.mtail outcome of a `filepath.Ext(base) == \".mtail\"` test on the base name of the path parameter (if, switch, negated, or inside a boolean helper); in LoadAllPrograms every path of a listing-loop iteration to LoadProgram (or to the unmarking) takes the not-a-directory outcome of an IsDir test of the entry")
 	{
 		g := lp.Graph()
 		targets := append(g.CallsTo("os.OpenFile"), g.CallsTo("os.Open")...)
 		targets = append(targets, g.CallsTo("os.ReadFile")...)
 		targets = append(targets, g.CallsTo(compileAndRun)...)
-		dot := ifsWhere(lp, func(is *ast.IfStmt) bool {
-			ok := false
-			ast.Inspect(is.Cond, func(n ast.Node) bool {
-				if call, isC := n.(*ast.CallExpr); isC && lp.CalleeID(call) == "strings.HasPrefix" && len(call.Args) == 2 {
-					if tv := lp.Info().Types[call.Args[1]]; tv.Value != nil && tv.Value.ExactString() == `"."` {
-						ok = baseNameOf(lp, call.Args[0])
+		pathParam := paramAt(lp, 0)
+		root := func(f *core.Func, e ast.Expr) string {
+			if f.Decl == lp.Decl && pathParam != nil && identObj(f.Info(), e) == pathParam {
+				return "path"
+			}
+			return ""
+		}
+		derive := func(f *core.Func, e ast.Expr, role func(ast.Expr) string) string {
+			call, ok := e.(*ast.CallExpr)
+			if !ok || len(call.Args) != 1 {
+				return ""
+			}
+			switch f.CalleeID(call) {
+			case "path/filepath.Base":
+				if r := role(call.Args[0]); r == "path" || r == "base" {
+					return "base"
+				}
+			case "path/filepath.Clean":
+				return role(call.Args[0])
+			}
+			return ""
+		}
+		strConst := func(f *core.Func, e ast.Expr) (string, bool) {
+			if tv := f.Info().Types[e]; tv.Value != nil {
+				return tv.Value.ExactString(), true
+			}
+			return "", false
+		}
+		var wrongConst []string
+		dotAtom := func(f *core.Func, e ast.Expr, role func(ast.Expr) string) (bool, bool) {
+			call, ok := e.(*ast.CallExpr)
+			if !ok || f.CalleeID(call) != "strings.HasPrefix" || len(call.Args) != 2 {
+				return false, false
+			}
+			if r := role(call.Args[0]); r == "path" {
+				wrongConst = append(wrongConst, "dot-file test|the whole path instead of its base name")
+				return false, false
+			} else if r != "base" {
+				return false, false
+			}
+			if s, isC := strConst(f, call.Args[1]); !isC || s != `"."` {
+				wrongConst = append(wrongConst, "dot-file test|prefix "+s)
+				return false, false
+			}
+			return false, true
+		}
+		extAtom := func(f *core.Func, e ast.Expr, role func(ast.Expr) string) (bool, bool) {
+			switch y := e.(type) {
+			case *ast.BinaryExpr:
+				if y.Op != token.NEQ && y.Op != token.EQL {
+					return false, false
+				}
+				for _, pair := range [][2]ast.Expr{{y.X, y.Y}, {y.Y, y.X}} {
+					call, isC := resolveLocal(f, pair[0]).(*ast.CallExpr)
+					// filepath.Ext of the path equals filepath.Ext of its base name
+					if !isC || f.CalleeID(call) != "path/filepath.Ext" || len(call.Args) != 1 || (role(call.Args[0]) != "base" && role(call.Args[0]) != "path") {
+						continue
+					}
+					if s, isK := strConst(f, pair[1]); !isK || s != `".mtail"` {
+						wrongConst = append(wrongConst, "extension test|extension "+s)
+						return false, false
+					}
+					return y.Op == token.EQL, y.Op == token.NEQ
+				}
+			case *ast.CallExpr:
+				if f.CalleeID(y) == "strings.HasSuffix" && len(y.Args) == 2 && (role(y.Args[0]) == "base" || role(y.Args[0]) == "path") {
+					if s, isK := strConst(f, y.Args[1]); !isK || s != `".mtail"` {
+						wrongConst = append(wrongConst, "extension test|suffix "+s)
+						return false, false
+					}
+					return true, false
+				}
+			}
+			return false, false
+		}
+		mentions := func(ids ...string) bool {
+			found := false
+			ast.Inspect(lp.Body, func(n ast.Node) bool {
+				if call, ok := n.(*ast.CallExpr); ok {
+					id := lp.CalleeID(call)
+					for _, w := range ids {
+						if id == w {
+							found = true
+						}
+					}
+					if cf := lp.CalleeFunc(call); cf != nil && cf != car {
+						ast.Inspect(cf.Body, func(m ast.Node) bool {
+							if c2, ok := m.(*ast.CallExpr); ok {
+								for _, w := range ids {
+									if cf.CalleeID(c2) == w {
+										found = true
+									}
+								}
+							}
+							return true
+						})
 					}
 				}
 				return true
 			})
-			return ok
-		})
-		ext := ifsWhere(lp, func(is *ast.IfStmt) bool {
-			be, ok := core.Unparen(is.Cond).(*ast.BinaryExpr)
-			if !ok || be.Op != token.NEQ {
-				return false
-			}
-			for _, pair := range [][2]ast.Expr{{be.X, be.Y}, {be.Y, be.X}} {
-				call, isC := core.Unparen(pair[0]).(*ast.CallExpr)
-				if isC && lp.CalleeID(call) == "path/filepath.Ext" && baseNameOf(lp, call.Args[0]) {
-					if tv := lp.Info().Types[pair[1]]; tv.Value != nil && tv.Value.ExactString() == `".mtail"` {
-						return true
-					}
-				}
-			}
-			return false
-		})
+			return found
+		}
 		for _, t := range []struct {
 			name string
-			ifs  []*ast.IfStmt
-		}{{"dot-file test", dot}, {"extension test", ext}} {
+			atom func(*core.Func, ast.Expr, func(ast.Expr) string) (bool, bool)
+			ids  []string
+		}{{"dot-file test", dotAtom, []string{"strings.HasPrefix"}}, {"extension test", extAtom, []string{"path/filepath.Ext", "strings.HasSuffix"}}} {
 			key := loadProgram + "|" + t.name
-			if len(t.ifs) == 0 {
-				c.Fail("C26-R1", key, pos(c, lp.Decl), "LoadProgram has no "+t.name+" on the base name of the path (negated or weakened?): ineligible files are compiled and loaded")
-				continue
-			}
-			var conds []core.Point
-			bad := false
-			for _, is := range t.ifs {
-				if p, ok := g.PointOf(is.Cond); ok {
-					conds = append(conds, p)
-				}
-				if start, ok := branchStart(g, is, true); ok {
-					if tr, found := pathAvoiding(g, start, core.HitPoints(targets), nil); found {
-						bad = true
-						c.Fail("C26-R1", key+"|skips", pos(c, is), "the branch taken for an ineligible file can still open or compile it", tr...)
-					}
-				}
-			}
-			if tr, found := pathAvoiding(g, nil, core.HitPoints(targets), conds); found {
-				bad = true
-				c.Fail("C26-R1", key, pos(c, lp.Decl), "the file can be opened or compiled without the "+t.name, tr...)
-			}
-			if !bad {
-				c.Ok("C26-R1", key, pos(c, t.ifs[0]), "dominates opening; ineligible branch never opens")
+			wrongConst = nil
+			gd := newGuard(guardSpec{derive: derive, atom: t.atom})
+			edge := gd.edges(lp, root, 0)
+			recognised := guardedAnywhere(g, edge)
+			tr, open := g.Search(core.Query{Goal: core.At(core.HitPoints(targets)...), AvoidEdge: edge})
+			switch {
+			case len(targets) == 0:
+			case !open:
+				c.Ok("C26-R1", key, pos(c, lp.Decl), "dominates opening; ineligible branch never opens")
+			case recognised:
+				c.Fail("C26-R1", key, pos(c, lp.Decl), "the file can be opened or compiled on a path that does not take the eligible outcome of the "+t.name+" (test negated, or its ineligible branch falls through): ineligible files are compiled and loaded", g.Trail(tr)...)
+			case len(wrongConst) > 0:
+				c.Fail("C26-R1", key, pos(c, lp.Decl), "LoadProgram's "+t.name+" tests the wrong thing ("+strings.SplitN(wrongConst[0], "|", 2)[1]+"): ineligible files are compiled and loaded", g.Trail(tr)...)
+			case mentions(t.ids...):
+				c.Undecided("C26-R1", key, pos(c, lp.Decl), "no "+t.name+" in a recognised shape guards the open, but the function still uses "+strings.Join(t.ids, "/")+": shape outside the family this rule reads")
+			default:
+				c.Fail("C26-R1", key, pos(c, lp.Decl), "LoadProgram has no "+t.name+" on the base name of the path: ineligible files are compiled and loaded", g.Trail(tr)...)
 			}
 		}
 		if len(targets) == 0 {
@@ -134,97 +376,220 @@ func c26(c *core.Check) {
 		if loop == nil {
 			c.Undecided("C26-R1", loadAllPrograms+"|listing loop", pos(c, la.Decl), "loop over the directory listing not found")
 		} else {
-			_, body, _ := loopBlocks(g, loop)
-			loads := inside(g.CallsTo(loadProgram), loop)
-			isdir := ifsWhere(la, func(is *ast.IfStmt) bool {
-				return is.Pos() > loop.Pos() && is.End() < loop.End() && strings.HasSuffix(strings.ReplaceAll(exprStr(is.Cond), " ", ""), ".IsDir()") && !strings.HasPrefix(exprStr(is.Cond), "!")
-			})
-			var conds []core.Point
-			bad := len(isdir) == 0
-			if bad {
-				c.Fail("C26-R1", loadAllPrograms+"|IsDir test", pos(c, loop), "no IsDir test in the listing loop: subdirectories are passed to LoadProgram")
+			head, body, _ := loopBlocks(g, loop)
+			listObj := identObj(la.Info(), resolveAlias(la, loop.X))
+			keyObj := identObj(la.Info(), loop.Key)
+			var valObj types.Object
+			if loop.Value != nil {
+				valObj = identObj(la.Info(), loop.Value)
 			}
-			unmarks := inside(g.Calls(func(id string, call *ast.CallExpr) bool {
-				return id == "builtin.delete" && core.PathOf(call.Args[0]) == "markDeleted"
-			}), loop)
-			for _, is := range isdir {
-				if p, ok := g.PointOf(is.Cond); ok {
-					conds = append(conds, p)
+			// the entry: the range value, or a local defined as listing[key]
+			entryRoot := func(f *core.Func, e ast.Expr) string {
+				if f.Decl != la.Decl {
+					return ""
 				}
-				if start, ok := branchStart(g, is, true); ok {
-					head, _, _ := loopBlocks(g, loop)
-					q := core.Query{From: start, Goal: core.At(append(core.HitPoints(loads), core.HitPoints(unmarks)...)...), Avoid: func(p core.Point) bool { return p.B == head }}
-					if tr, found := g.Search(q); found {
-						bad = true
-						c.Fail("C26-R1", loadAllPrograms+"|IsDir skips", pos(c, is), "a directory entry that is a directory can still be loaded or keep a removed program of the same name marked as present", g.Trail(tr)...)
+				o := identObj(f.Info(), e)
+				if o == nil {
+					return ""
+				}
+				if valObj != nil && o == valObj {
+					return "entry"
+				}
+				if ix, ok := singleDefExpr(f, o).(*ast.IndexExpr); ok && keyObj != nil && listObj != nil &&
+					identObj(f.Info(), resolveAlias(f, ix.X)) == listObj && identObj(f.Info(), ix.Index) == keyObj {
+					return "entry"
+				}
+				return ""
+			}
+			entryDerive := func(f *core.Func, e ast.Expr, role func(ast.Expr) string) string {
+				call, ok := e.(*ast.CallExpr)
+				if !ok {
+					return ""
+				}
+				id := f.CalleeID(call)
+				switch {
+				case id == "io/fs.DirEntry.Type" && role(core.RecvExpr(call)) == "entry":
+					return "entrymode"
+				case id == "io/fs.DirEntry.Name" && role(core.RecvExpr(call)) == "entry":
+					return "entryname"
+				case id == "path/filepath.Base" && len(call.Args) == 1 && role(call.Args[0]) == "entryname":
+					return "entryname"
+				}
+				return ""
+			}
+			dirGuard := newGuard(guardSpec{derive: entryDerive, atom: func(f *core.Func, e ast.Expr, role func(ast.Expr) string) (bool, bool) {
+				call, ok := e.(*ast.CallExpr)
+				if !ok || !strings.HasSuffix(f.CalleeID(call), ".IsDir") || core.RecvExpr(call) == nil {
+					return false, false
+				}
+				if r := role(core.RecvExpr(call)); r != "entry" && r != "entrymode" {
+					return false, false
+				}
+				return false, true // IsDir() false => a file
+			}})
+			notDir := dirGuard.edges(la, entryRoot, 0)
+			loads := inside(g.CallsTo(loadProgram), loop)
+			// the set of names to unload: the local map that gets every key of r.handles
+			var markObj types.Object
+			var seedLoops []*ast.RangeStmt
+			for _, rs := range rangeStmts(la) {
+				if !x.isHandles(la, rs.X) {
+					continue
+				}
+				seedLoops = append(seedLoops, rs)
+				for _, st := range inside(g.Find(func(n ast.Node) bool { _, ok := n.(*ast.AssignStmt); return ok }), rs) {
+					as := st.N.(*ast.AssignStmt)
+					if ix, ok := core.Unparen(as.Lhs[0]).(*ast.IndexExpr); ok && len(as.Lhs) == 1 {
+						if m := identObj(la.Info(), resolveAlias(la, ix.X)); m != nil && identObj(la.Info(), ix.Index) == identObj(la.Info(), rs.Key) && rs.Key != nil {
+							if _, isMap := m.Type().Underlying().(*types.Map); isMap {
+								markObj = m
+							}
+						}
 					}
 				}
 			}
-			if body != nil {
+			isMark := func(f *core.Func, e ast.Expr) bool {
+				return markObj != nil && identObj(f.Info(), resolveAlias(f, e)) == markObj
+			}
+			allUnmarks := g.Calls(func(id string, call *ast.CallExpr) bool {
+				return id == "builtin.delete" && len(call.Args) == 2 && isMark(la, call.Args[0])
+			})
+			unmarks := inside(allUnmarks, loop)
+			iterTargets := append(core.HitPoints(loads), core.HitPoints(unmarks)...)
+			bad := false
+			if body != nil && head != nil {
 				start := &core.Point{B: body, I: -1}
-				if tr, found := pathAvoiding(g, start, append(core.HitPoints(loads), core.HitPoints(unmarks)...), conds); found {
+				if tr, found := g.Search(core.Query{From: start, Goal: core.At(iterTargets...), AvoidEdge: notDir, Avoid: func(p core.Point) bool { return p.B == head }}); found {
 					bad = true
-					c.Fail("C26-R1", loadAllPrograms+"|IsDir test", pos(c, loop), "LoadProgram / unmarking can be reached without the IsDir test", tr...)
+					if guardedAnywhere(g, notDir) {
+						c.Fail("C26-R1", loadAllPrograms+"|IsDir skips", pos(c, loop), "a directory entry that is a directory can still be loaded or keep a removed program of the same name marked as present: LoadProgram / unmarking is reached without the not-a-directory outcome of the IsDir test", g.Trail(tr)...)
+					} else {
+						isDirMentioned := false
+						ast.Inspect(loop.Body, func(n ast.Node) bool {
+							if call, ok := n.(*ast.CallExpr); ok && strings.HasSuffix(la.CalleeID(call), ".IsDir") {
+								isDirMentioned = true
+							}
+							return true
+						})
+						if isDirMentioned {
+							c.Undecided("C26-R1", loadAllPrograms+"|IsDir test", pos(c, loop), "an IsDir call occurs in the listing loop but not as a recognised test of the listed entry")
+						} else {
+							c.Fail("C26-R1", loadAllPrograms+"|IsDir test", pos(c, loop), "no IsDir test in the listing loop: subdirectories are passed to LoadProgram", g.Trail(tr)...)
+						}
+					}
 				}
+			} else {
+				bad = true
+				c.Undecided("C26-R1", loadAllPrograms+"|IsDir test", pos(c, loop), "listing loop blocks not found in the CFG")
+			}
+			if len(loads) == 0 {
+				bad = true
+				c.Undecided("C26-R1", loadAllPrograms+"|loads", pos(c, loop), "no call of LoadProgram inside the listing loop")
 			}
 			if !bad {
 				c.Ok("C26-R1", loadAllPrograms+"|IsDir test", pos(c, loop), "directories never loaded or unmarked")
 			}
 
 			// R2
-			c.Rule("C26-R2", "UNLOAD-VANISHED: markDeleted gets every key of r.handles while the handle lock is held; delete(markDeleted, k) occurs only in the listing loop with k = filepath.Base(dirent.Name()) (or dirent.Name()); after the loop every key left in markDeleted is passed to UnloadProgram")
+			c.Rule("C26-R2", "UNLOAD-VANISHED: a local set gets every key of r.handles (one store per iteration of a range over the map that cannot stop early) while the handle lock is held; delete(set, k) occurs only in the listing loop with k = filepath.Base(entry.Name()) (or entry.Name()) of the listed entry; after the loop every key left in the set is passed to UnloadProgram (in a range over the set, directly or in a callee that receives the set)")
 			seeded := false
-			for _, rs := range rangeStmts(la) {
-				if !strings.HasSuffix(core.PathOf(rs.X), ".handles") {
-					continue
+			muPath := ""
+			for _, ev := range g.LockEvents() {
+				if fieldOf(la.Info(), core.RecvExpr(ev.Call)) == x.handleMu && x.handleMu != nil {
+					muPath = ev.Path
 				}
+			}
+			for _, rs := range seedLoops {
 				hold := g.MustHold()
-				for _, st := range mapStores(g, "markDeleted") {
+				var storePts []core.Point
+				for _, st := range inside(g.Find(func(n ast.Node) bool { _, ok := n.(*ast.AssignStmt); return ok }), rs) {
 					as := st.N.(*ast.AssignStmt)
-					ix := core.Unparen(as.Lhs[0]).(*ast.IndexExpr)
-					if identObj(la.Info(), ix.Index) != nil && identObj(la.Info(), ix.Index) == identObj(la.Info(), rs.Key) && st.N.Pos() > rs.Pos() && st.N.End() < rs.End() {
-						seeded = true
-						held := hold.At(st.P)
-						c.Verdict(core.Holds(held, "r.handleMu", "R"), "C26-R2", loadAllPrograms+"|seed under lock", pos(c, as), "handle lock held", "the snapshot of loaded program names is taken without the handle lock")
+					ix, ok := core.Unparen(as.Lhs[0]).(*ast.IndexExpr)
+					if !ok || !isMark(la, ix.X) || identObj(la.Info(), ix.Index) != identObj(la.Info(), rs.Key) {
+						continue
 					}
+					seeded = true
+					storePts = append(storePts, st.P)
+					held := hold.At(st.P)
+					c.Verdict(muPath != "" && core.Holds(held, muPath, "R"), "C26-R2", loadAllPrograms+"|seed under lock", pos(c, as), "handle lock held", "the snapshot of loaded program names is taken without the handle lock")
 				}
 				// the loop must not skip entries
 				if early := earlyLoopExits(c, g, rs); len(early) > 0 {
 					c.Fail("C26-R2", loadAllPrograms+"|seed complete", pos(c, rs), "the snapshot loop over loaded programs can stop early: "+early[0])
 				}
-				if ifs := ifsWhere(la, func(is *ast.IfStmt) bool { return is.Pos() > rs.Pos() && is.End() < rs.End() }); len(ifs) > 0 {
-					c.Fail("C26-R2", loadAllPrograms+"|seed unconditional", pos(c, ifs[0]), "the snapshot of loaded programs is conditional: some loaded programs are never candidates for unloading")
+				if cnt, ok := iterationCount(g, rs, storePts); len(storePts) > 0 && (!ok || cnt.Min < 1) {
+					c.Fail("C26-R2", loadAllPrograms+"|seed unconditional", pos(c, rs), "the snapshot of loaded programs is conditional: some loaded programs are never candidates for unloading")
 				}
 			}
-			c.Verdict(seeded, "C26-R2", loadAllPrograms+"|seed", pos(c, la.Decl), "every loaded name is marked", "markDeleted is not seeded with every key of r.handles: a program whose file vanished keeps running")
-			for i, u := range g.Calls(func(id string, call *ast.CallExpr) bool {
-				return id == "builtin.delete" && core.PathOf(call.Args[0]) == "markDeleted"
-			}) {
-				call := u.N.(*ast.CallExpr)
-				k := strings.ReplaceAll(exprStr(call.Args[1]), " ", "")
-				dn := exprStr(loop.Value) + ".Name()"
-				okKey := (k == "filepath.Base("+dn+")" || k == dn) && u.N.Pos() > loop.Pos() && u.N.End() < loop.End()
-				c.Verdict(okKey, "C26-R2", fmt.Sprintf("%s|unmark#%d", loadAllPrograms, i+1), pos(c, call), "unmarks the listed entry's own name", "an entry of markDeleted is removed with a key that is not the listed directory entry's base name, or outside the listing loop")
-			}
-			unloaded := false
-			for _, rs := range rangeStmts(la) {
-				if core.PathOf(rs.X) != "markDeleted" || rs.Pos() < loop.End() {
-					continue
-				}
-				for _, h := range inside(g.CallsTo(unloadProgram), rs) {
-					call := h.N.(*ast.CallExpr)
-					if identObj(la.Info(), call.Args[0]) == identObj(la.Info(), rs.Key) && identObj(la.Info(), rs.Key) != nil {
-						unloaded = true
+			seedElsewhere := false
+			if !seeded {
+				for _, cf := range la.Callees() {
+					for _, rs := range rangeStmts(cf) {
+						if x.isHandles(cf, rs.X) && cf.Decl != la.Decl {
+							seedElsewhere = true
+						}
 					}
 				}
-				if early := earlyLoopExits(c, g, rs); len(early) > 0 {
-					unloaded = false
-				}
-				if cnt, ok := iterationCount(g, rs, core.HitPoints(inside(g.CallsTo(unloadProgram), rs))); !ok || cnt.Min != 1 {
-					unloaded = false
-				}
 			}
-			c.Verdict(unloaded, "C26-R2", loadAllPrograms+"|unload remainder", pos(c, la.Decl), "every remaining name unloaded", "names left in markDeleted after the listing are not all passed to UnloadProgram: a removed program keeps receiving lines")
+			if seedElsewhere {
+				c.Undecided("C26-R2", loadAllPrograms+"|seed", pos(c, la.Decl), "LoadAllPrograms does not itself range over r.handles but calls a function that does: a snapshot built in a callee is outside the shapes this rule reads")
+			} else {
+				c.Verdict(seeded, "C26-R2", loadAllPrograms+"|seed", pos(c, la.Decl), "every loaded name is marked", "no local set is seeded with every key of r.handles: a program whose file vanished keeps running")
+			}
+			for i, u := range allUnmarks {
+				call := u.N.(*ast.CallExpr)
+				inLoop := u.N.Pos() > loop.Pos() && u.N.End() < loop.End()
+				okKey := dirGuard.role(la, call.Args[1], entryRoot) == "entryname" && inLoop
+				c.Verdict(okKey, "C26-R2", fmt.Sprintf("%s|unmark#%d", loadAllPrograms, i+1), pos(c, call), "unmarks the listed entry's own name", "an entry of the set of names to unload is removed with a key that is not the listed directory entry's base name, or outside the listing loop")
+			}
+			var unloadsAll func(f *core.Func, set types.Object, after token.Pos, depth int) bool
+			unloadsAll = func(f *core.Func, set types.Object, after token.Pos, depth int) bool {
+				if set == nil || depth > 2 {
+					return false
+				}
+				fg := f.Graph()
+				for _, rs := range rangeStmts(f) {
+					if identObj(f.Info(), resolveAlias(f, rs.X)) != set || rs.Pos() < after {
+						continue
+					}
+					calls := inside(fg.CallsTo(unloadProgram), rs)
+					good := false
+					for _, h := range calls {
+						call := h.N.(*ast.CallExpr)
+						if len(call.Args) == 1 && rs.Key != nil && identObj(f.Info(), resolveAlias(f, call.Args[0])) == identObj(f.Info(), rs.Key) {
+							good = true
+						}
+					}
+					if early := earlyLoopExits(c, fg, rs); len(early) > 0 {
+						good = false
+					}
+					if cnt, ok := iterationCount(fg, rs, core.HitPoints(calls)); !ok || cnt.Min != 1 {
+						good = false
+					}
+					if good {
+						return true
+					}
+				}
+				found := false
+				for _, h := range fg.Find(func(n ast.Node) bool { _, ok := n.(*ast.CallExpr); return ok }) {
+					call := h.N.(*ast.CallExpr)
+					cf := f.CalleeFunc(call)
+					if cf == nil || cf.Lit != nil || call.Pos() < after || h.InGo {
+						continue
+					}
+					for i, a := range call.Args {
+						if identObj(f.Info(), resolveAlias(f, a)) == set {
+							if p := paramAt(cf, i); p != nil && !assignedIn(cf, p) && unloadsAll(cf, p, token.NoPos, depth+1) {
+								c.Analysed(cf)
+								found = true
+							}
+						}
+					}
+				}
+				return found
+			}
+			unloaded := unloadsAll(la, markObj, loop.End(), 0)
+			c.Verdict(unloaded, "C26-R2", loadAllPrograms+"|unload remainder", pos(c, la.Decl), "every remaining name unloaded", "names left in the set after the listing are not all passed to UnloadProgram: a removed program keeps receiving lines")
 		}
 	}
 	c.Floor("C26-R1", 3)
@@ -232,27 +597,17 @@ func c26(c *core.Check) {
 
 	// R3
 	c.Rule("C26-R3", "FAILED-LOAD-KEEPS-VM: in CompileAndRun and LoadProgram no path from an operation that ends or replaces a running version (close of a handle's lines channel, delete from / store into r.handles, directly or in a callee) reaches a return of a non-nil error")
-	enders := handleEnders(c)
+	enders := x.enders()
 	for _, f := range []*core.Func{car, lp} {
 		g := f.Graph()
 		ops := g.Find(func(n ast.Node) bool {
-			switch x := n.(type) {
-			case *ast.CallExpr:
-				id := f.CalleeID(x)
-				if id == "builtin.close" && len(x.Args) == 1 && strings.HasSuffix(core.PathOf(x.Args[0]), ".lines") {
+			if f == car && x.handleOp(f, n) {
+				return true
+			}
+			if call, ok := n.(*ast.CallExpr); ok {
+				// in LoadProgram the error returns after CompileAndRun propagate its failure: CompileAndRun itself is decided above
+				if cf := f.CalleeFunc(call); cf != nil && enders[cf] && cf != car {
 					return true
-				}
-				if id == "builtin.delete" && strings.HasSuffix(core.PathOf(x.Args[0]), ".handles") {
-					return true
-				}
-				if cf := f.CalleeFunc(x); cf != nil && enders[cf] && cf != car {
-					return true
-				}
-			case *ast.AssignStmt:
-				for _, l := range x.Lhs {
-					if ix, ok := core.Unparen(l).(*ast.IndexExpr); ok && strings.HasSuffix(core.PathOf(ix.X), ".handles") {
-						return true
-					}
 				}
 			}
 			return false
@@ -261,20 +616,6 @@ func c26(c *core.Check) {
 		for _, e := range normalExits(g) {
 			if e.Kind == "return" && !returnsNil(f.Info(), e.Ret) {
 				errRets = append(errRets, e.P)
-			}
-		}
-		if f == lp {
-			// in LoadProgram the error returns after CompileAndRun propagate its failure: the op of interest there is none
-			ops = nil
-			for _, h := range g.Find(func(n ast.Node) bool {
-				x, ok := n.(*ast.CallExpr)
-				if !ok {
-					return false
-				}
-				cf := f.CalleeFunc(x)
-				return cf != nil && enders[cf] && cf != car
-			}) {
-				ops = append(ops, h)
 			}
 		}
 		bad := false
@@ -292,28 +633,29 @@ func c26(c *core.Check) {
 	c.Floor("C26-R3", 2)
 
 	// R4
-	c.Rule("C26-R4", "GUARDED-LOOKUP: every expression r.handles[k].f in package runtime is inside `for k := range r.handles` or uses a value obtained by `h, ok := r.handles[k]` whose ok branch encloses it")
+	c.Rule("C26-R4", "GUARDED-LOOKUP: every expression r.handles[k].f in package runtime is inside `for k := range r.handles`; every value obtained by `h, ok := r.handles[k]` or `h := r.handles[k]` is dereferenced only where the ok result was found true or h was found non-nil (branch, switch, short-circuit or boolean helper)")
 	n4 := 0
 	for _, sf := range shipped(c) {
 		if core.Rel(sf.Pkg.PkgPath) != "internal/runtime" {
 			continue
 		}
+		sf := sf
 		core.InspectNoLit(sf.Body, func(n ast.Node) bool {
 			sel, ok := n.(*ast.SelectorExpr)
 			if !ok {
 				return true
 			}
 			ix, ok := core.Unparen(sel.X).(*ast.IndexExpr)
-			if !ok || !strings.HasSuffix(core.PathOf(ix.X), ".handles") {
+			if !ok || !x.isHandles(sf, ix.X) {
 				return true
 			}
 			n4++
 			c.Analysed(sf)
 			key := fmt.Sprintf("%s|%s", sf.Key, exprStr(sel))
 			safe := false
+			ko := identObj(sf.Info(), resolveAlias(sf, ix.Index))
 			for _, rs := range rangeStmts(sf) {
-				if strings.HasSuffix(core.PathOf(rs.X), ".handles") && rs.Pos() < sel.Pos() && sel.End() < rs.End() &&
-					identObj(sf.Info(), ix.Index) != nil && identObj(sf.Info(), ix.Index) == identObj(sf.Info(), rs.Key) {
+				if x.isHandles(sf, rs.X) && rs.Pos() < sel.Pos() && sel.End() < rs.End() && ko != nil && rs.Key != nil && ko == identObj(sf.Info(), rs.Key) {
 					safe = true
 				}
 			}
@@ -321,104 +663,79 @@ func c26(c *core.Check) {
 			return true
 		})
 	}
-	// comma-ok lookups whose value is used outside the ok branch
 	for _, sf := range shipped(c) {
 		if core.Rel(sf.Pkg.PkgPath) != "internal/runtime" {
 			continue
 		}
+		sf := sf
 		core.InspectNoLit(sf.Body, func(n ast.Node) bool {
-			as, ok := n.(*ast.AssignStmt)
-			if !ok || len(as.Rhs) != 1 {
+			var lhs []ast.Expr
+			var rhs ast.Expr
+			switch s := n.(type) {
+			case *ast.AssignStmt:
+				if len(s.Rhs) != 1 {
+					return true
+				}
+				lhs, rhs = s.Lhs, s.Rhs[0]
+			case *ast.ValueSpec:
+				if len(s.Values) != 1 {
+					return true
+				}
+				for _, nm := range s.Names {
+					lhs = append(lhs, nm)
+				}
+				rhs = s.Values[0]
+			default:
 				return true
 			}
-			ix, ok := core.Unparen(as.Rhs[0]).(*ast.IndexExpr)
-			if !ok || !strings.HasSuffix(core.PathOf(ix.X), ".handles") {
+			ix, ok := core.Unparen(rhs).(*ast.IndexExpr)
+			if !ok || !x.isHandles(sf, ix.X) || len(lhs) == 0 || len(lhs) > 2 {
 				return true
 			}
 			n4++
 			c.Analysed(sf)
-			key := fmt.Sprintf("%s|lookup %s", sf.Key, exprStr(as.Lhs[0]))
-			if len(as.Lhs) != 2 {
-				// single-value lookup: the value must be nil-tested before use; accept only if never dereferenced
-				hv := identObj(sf.Info(), as.Lhs[0])
-				der := derefsOf(sf, hv, nil)
-				c.Verdict(len(der) == 0, "C26-R4", key, pos(c, as), "value not dereferenced", "a handle is looked up without the ok result and dereferenced")
-				return true
+			key := fmt.Sprintf("%s|lookup %s", sf.Key, exprStr(lhs[0]))
+			hv := identObj(sf.Info(), lhs[0])
+			var okv types.Object
+			if len(lhs) == 2 {
+				okv = identObj(sf.Info(), lhs[1])
 			}
-			hv, okv := identObj(sf.Info(), as.Lhs[0]), identObj(sf.Info(), as.Lhs[1])
 			g := sf.Graph()
-			lp0, okp := g.PointOf(as)
+			lp0, okp := g.PointOf(n)
 			if !okp {
-				c.Undecided("C26-R4", key, pos(c, as), "lookup not found in the CFG")
+				c.Undecided("C26-R4", key, pos(c, n), "lookup not found in the CFG")
 				return true
 			}
-			// edges on which ok is known to be true
-			trueEdge := func(b *cfg.Block, si int) bool {
-				if len(b.Nodes) == 0 || len(b.Succs) != 2 {
-					return false
+			exists := newGuard(guardSpec{atom: func(f *core.Func, e ast.Expr, _ func(ast.Expr) string) (bool, bool) {
+				if o := identObj(f.Info(), e); o != nil && o == okv {
+					return true, false
 				}
-				e, isE := b.Nodes[len(b.Nodes)-1].(ast.Expr)
-				if !isE {
-					return false
+				if y, nonNilWhenTrue, isCmp := nilCompare(f.Info(), e); isCmp && hv != nil && identObj(f.Info(), y) == hv {
+					return nonNilWhenTrue, !nonNilWhenTrue
 				}
-				for _, x := range chain(e, token.LAND) {
-					if identObj(sf.Info(), x) == okv && okv != nil {
-						return si == 0
-					}
-				}
-				for _, x := range chain(e, token.LOR) {
-					if u, isU := core.Unparen(x).(*ast.UnaryExpr); isU && u.Op == token.NOT && identObj(sf.Info(), u.X) == okv && okv != nil {
-						return si == 1
-					}
-				}
-				return false
-			}
-			// a dereference inside the condition itself, to the right of the ok conjunct, is guarded by short-circuit evaluation
-			inCondAfterOk := func(sel ast.Node, b *cfg.Block) bool {
-				if len(b.Nodes) == 0 {
-					return false
-				}
-				e, isE := b.Nodes[len(b.Nodes)-1].(ast.Expr)
-				if !isE || !(e.Pos() <= sel.Pos() && sel.End() <= e.End()) {
-					return false
-				}
-				seen := false
-				for _, x := range chain(e, token.LAND) {
-					if identObj(sf.Info(), x) == okv {
-						seen = true
-						continue
-					}
-					if seen && x.Pos() <= sel.Pos() && sel.End() <= x.End() {
-						return true
-					}
-				}
-				seen = false
-				for _, x := range chain(e, token.LOR) {
-					if u, isU := core.Unparen(x).(*ast.UnaryExpr); isU && u.Op == token.NOT && identObj(sf.Info(), u.X) == okv {
-						seen = true
-						continue
-					}
-					if seen && x.Pos() <= sel.Pos() && sel.End() <= x.End() {
-						return true
-					}
-				}
-				return false
-			}
+				return false, false
+			}})
+			safeEdge := exists.edges(sf, nil, 0)
 			nbad := 0
 			var tr0 []string
 			for _, d := range g.Find(func(n ast.Node) bool {
-				sel, ok := n.(*ast.SelectorExpr)
-				return ok && identObj(sf.Info(), sel.X) == hv && hv != nil
+				switch y := n.(type) {
+				case *ast.SelectorExpr:
+					return hv != nil && identObj(sf.Info(), y.X) == hv
+				case *ast.StarExpr:
+					return hv != nil && identObj(sf.Info(), y.X) == hv
+				}
+				return false
 			}) {
-				if inCondAfterOk(d.N, d.P.B) {
+				if shortCircuit(exists, sf, d.P.Node(), d.N) {
 					continue
 				}
-				if tr, found := g.Search(core.Query{From: &lp0, Goal: core.At(d.P), AvoidEdge: trueEdge}); found {
+				if tr, found := g.Search(core.Query{From: &lp0, Goal: core.At(d.P), AvoidEdge: safeEdge}); found {
 					nbad++
 					tr0 = g.Trail(tr)
 				}
 			}
-			c.Verdict(nbad == 0, "C26-R4", key, pos(c, as), "dereferenced only where ok is known true", fmt.Sprintf("the looked-up handle is dereferenced on a path where the lookup's ok result was not found true (%d sites)", nbad), tr0...)
+			c.Verdict(nbad == 0, "C26-R4", key, pos(c, n), "dereferenced only where the handle is known to exist", fmt.Sprintf("the looked-up handle is dereferenced on a path where neither the lookup's ok result was found true nor the handle found non-nil (%d sites)", nbad), tr0...)
 			return true
 		})
 	}
@@ -426,62 +743,106 @@ func c26(c *core.Check) {
 	c.Floor("C26-R4", 4)
 
 	// R5
-	c.Rule("C26-R5", "FRESH-HANDLE: the handle stored for the name on success is a composite literal whose contentHash is this call's hash of the source, whose vm is this call's vm.New result and whose lines is a channel made in this call and the one passed to go v.Run; fields of a vmHandle are never assigned outside such a literal; the unchanged-contents test compares the stored handle's contentHash with this call's hash")
+	c.Rule("C26-R5", "FRESH-HANDLE: the handle stored for the name on success (in CompileAndRun or a function it calls) is a &vmHandle{…} literal whose contentHash is this call's hash of the source, whose vm is this call's vm.New result and whose lines is a channel made in this call and the one passed to go v.Run; fields of a vmHandle are never assigned outside such a literal; the unchanged-contents test compares the stored handle's contentHash with this call's hash")
 	{
-		g := car.Graph()
-		st := mapStores(g, ".handles")
-		for i, s := range st {
-			as := s.N.(*ast.AssignStmt)
-			key := fmt.Sprintf("%s|store#%d", compileAndRun, i+1)
-			var lit *ast.CompositeLit
-			if u, ok := core.Unparen(as.Rhs[0]).(*ast.UnaryExpr); ok && u.Op == token.AND {
-				lit, _ = core.Unparen(u.X).(*ast.CompositeLit)
+		// store sites: in CompileAndRun and the module functions it (transitively) calls
+		var storeFns []*core.Func
+		seen := map[*core.Func]bool{}
+		var walk func(f *core.Func, depth int)
+		walk = func(f *core.Func, depth int) {
+			if seen[f] || depth > 2 {
+				return
 			}
-			if lit == nil {
-				c.Fail("C26-R5", key, pos(c, as), "the handle installed is not a fresh &vmHandle{…} literal: hash, VM and channel of the running version can disagree")
-				continue
-			}
-			fields := map[string]ast.Expr{}
-			for _, el := range lit.Elts {
-				if kv, ok := el.(*ast.KeyValueExpr); ok {
-					fields[exprStr(kv.Key)] = kv.Value
-				}
-			}
-			hashOK := fields["contentHash"] != nil && definedByCall(car, fields["contentHash"], "hash.Hash.Sum", "Sum")
-			vmOK := fields["vm"] != nil && definedByCall(car, fields["vm"], "internal/runtime/vm.New", "New")
-			linesOK := fields["lines"] != nil && definedByMake(car, fields["lines"])
-			ix := core.Unparen(as.Lhs[0]).(*ast.IndexExpr)
-			nameOK := identObj(car.Info(), ix.Index) == paramObj(car, "name")
-			c.Verdict(hashOK && vmOK && linesOK && nameOK, "C26-R5", key, pos(c, as), "fresh handle from this call's hash, VM and channel",
-				fmt.Sprintf("the installed handle is not built from this call's values (hash ok=%v, vm ok=%v, channel ok=%v, key is name=%v): a later reload compares against a stale hash or lines go to the wrong version", hashOK, vmOK, linesOK, nameOK))
-			// go v.Run(lines) uses the same vm and channel
-			for _, gh := range g.Find(func(n ast.Node) bool { _, ok := n.(*ast.GoStmt); return ok }) {
-				gs := gh.N.(*ast.GoStmt)
-				if car.CalleeID(gs.Call) == "internal/runtime/vm.(*VM).Run" {
-					same := identObj(car.Info(), core.RecvExpr(gs.Call)) == identObj(car.Info(), fields["vm"]) && identObj(car.Info(), gs.Call.Args[0]) == identObj(car.Info(), fields["lines"]) && identObj(car.Info(), fields["vm"]) != nil
-					c.Verdict(same, "C26-R5", compileAndRun+"|run", pos(c, gs), "the VM started is the one installed, on the installed channel", "the goroutine started does not run the installed VM on the installed channel")
+			seen[f] = true
+			storeFns = append(storeFns, f)
+			for _, cf := range f.Callees() {
+				if core.Rel(cf.Pkg.PkgPath) == "internal/runtime" && cf.Lit == nil {
+					walk(cf, depth+1)
 				}
 			}
 		}
-		if len(st) == 0 {
-			c.Fail("C26-R5", compileAndRun+"|store", pos(c, car.Decl), "CompileAndRun never stores a handle for the program name")
-		}
-		// success paths must pass the store (unless compileOnly)
-		// hash compare
-		for _, is := range ifsWhere(car, func(is *ast.IfStmt) bool { return exprCalls(car, is.Cond, "bytes.Equal") }) {
-			okc := false
-			ast.Inspect(is.Cond, func(n ast.Node) bool {
-				if call, isC := n.(*ast.CallExpr); isC && car.CalleeID(call) == "bytes.Equal" {
-					a, b := call.Args[0], call.Args[1]
-					for _, pr := range [][2]ast.Expr{{a, b}, {b, a}} {
-						if strings.HasSuffix(core.PathOf(pr[0]), ".contentHash") && definedByCall(car, pr[1], "hash.Hash.Sum", "Sum") {
-							okc = true
+		walk(car, 0)
+		nstore := 0
+		for _, sfn := range storeFns {
+			g := sfn.Graph()
+			for _, s := range mapStoresOn(g, x.handles) {
+				nstore++
+				c.Analysed(sfn)
+				as := s.N.(*ast.AssignStmt)
+				key := fmt.Sprintf("%s|store#%d", compileAndRun, nstore)
+				var lit *ast.CompositeLit
+				if u, ok := resolveLocal(sfn, as.Rhs[0]).(*ast.UnaryExpr); ok && u.Op == token.AND {
+					lit, _ = core.Unparen(u.X).(*ast.CompositeLit)
+				}
+				if lit == nil {
+					c.Fail("C26-R5", key, pos(c, as), "the handle installed is not a fresh &vmHandle{…} literal: hash, VM and channel of the running version can disagree")
+					continue
+				}
+				fields := map[*types.Var]ast.Expr{}
+				var st *types.Struct
+				if t := sfn.Info().TypeOf(lit); t != nil {
+					st, _ = t.Underlying().(*types.Struct)
+				}
+				for i, el := range lit.Elts {
+					if kv, ok := el.(*ast.KeyValueExpr); ok {
+						if id, ok := kv.Key.(*ast.Ident); ok {
+							if fv, ok := sfn.Info().Uses[id].(*types.Var); ok {
+								fields[fv] = kv.Value
+							}
 						}
+					} else if st != nil && i < st.NumFields() {
+						fields[st.Field(i)] = el
 					}
 				}
+				hashOK := x.allOrigins(sfn, fields[x.hHash], car, isSumCall)
+				vmOK := x.allOrigins(sfn, fields[x.hVM], car, func(fn *core.Func, e ast.Expr) bool {
+					return isCallTo(fn, e, func(id string, _ *ast.CallExpr) bool { return id == "internal/runtime/vm.New" })
+				})
+				linesOK := x.allOrigins(sfn, fields[x.hLines], car, func(fn *core.Func, e ast.Expr) bool {
+					return isCallTo(fn, e, func(id string, call *ast.CallExpr) bool { return id == "builtin.make" && len(call.Args) == 1 })
+				})
+				ix := core.Unparen(as.Lhs[0]).(*ast.IndexExpr)
+				nameParam := paramAt(car, 0)
+				nameOK := x.allOrigins(sfn, ix.Index, car, func(fn *core.Func, e ast.Expr) bool {
+					return fn.Decl == car.Decl && nameParam != nil && identObj(fn.Info(), e) == nameParam
+				})
+				c.Verdict(hashOK && vmOK && linesOK && nameOK, "C26-R5", key, pos(c, as), "fresh handle from this call's hash, VM and channel",
+					fmt.Sprintf("the installed handle is not built from this call's values (hash ok=%v, vm ok=%v, channel ok=%v, key is name=%v): a later reload compares against a stale hash or lines go to the wrong version", hashOK, vmOK, linesOK, nameOK))
+				// go v.Run(lines) uses the same vm and channel
+				for _, gh := range g.Find(func(n ast.Node) bool { _, ok := n.(*ast.GoStmt); return ok }) {
+					gs := gh.N.(*ast.GoStmt)
+					if sfn.CalleeID(gs.Call) == "internal/runtime/vm.(*VM).Run" && len(gs.Call.Args) > 0 {
+						vo := identObj(sfn.Info(), resolveAlias(sfn, fields[x.hVM]))
+						lo := identObj(sfn.Info(), resolveAlias(sfn, fields[x.hLines]))
+						same := vo != nil && lo != nil && identObj(sfn.Info(), resolveAlias(sfn, core.RecvExpr(gs.Call))) == vo && identObj(sfn.Info(), resolveAlias(sfn, gs.Call.Args[0])) == lo
+						c.Verdict(same, "C26-R5", compileAndRun+"|run", pos(c, gs), "the VM started is the one installed, on the installed channel", "the goroutine started does not run the installed VM on the installed channel")
+					}
+				}
+			}
+		}
+		if nstore == 0 {
+			c.Fail("C26-R5", compileAndRun+"|store", pos(c, car.Decl), "CompileAndRun never stores a handle for the program name")
+		}
+		// hash compare
+		neq := 0
+		ast.Inspect(car.Body, func(n ast.Node) bool {
+			call, isC := n.(*ast.CallExpr)
+			if !isC || car.CalleeID(call) != "bytes.Equal" || len(call.Args) != 2 {
 				return true
-			})
-			c.Verdict(okc, "C26-R5", compileAndRun+"|unchanged test", pos(c, is), "stored hash vs this call's hash", "the unchanged-contents test does not compare the stored handle's hash with the hash of the bytes read in this call")
+			}
+			neq++
+			a, b := call.Args[0], call.Args[1]
+			okc := false
+			for _, pr := range [][2]ast.Expr{{a, b}, {b, a}} {
+				if fieldOf(car.Info(), resolveLocal(car, pr[0])) == x.hHash && x.hHash != nil && x.allOrigins(car, pr[1], car, isSumCall) {
+					okc = true
+				}
+			}
+			c.Verdict(okc, "C26-R5", compileAndRun+"|unchanged test", pos(c, call), "stored hash vs this call's hash", "the unchanged-contents test does not compare the stored handle's hash with the hash of the bytes read in this call")
+			return true
+		})
+		if neq == 0 {
+			c.Undecided("C26-R5", compileAndRun+"|unchanged test", pos(c, car.Decl), "no bytes.Equal comparison of content hashes found in CompileAndRun")
 		}
 	}
 	for _, sf := range shipped(c) {
@@ -505,6 +866,14 @@ func c26(c *core.Check) {
 	c.Floor("C26-R5", 3)
 }
 
+// singleDefExpr is singleDef with parentheses stripped (nil-safe for type switches).
+func singleDefExpr(f *core.Func, o types.Object) ast.Expr {
+	if d := singleDef(f, o); d != nil {
+		return core.Unparen(d)
+	}
+	return nil
+}
+
 // inside filters hits lying lexically inside node n.
 func inside(hs []core.Hit, n ast.Node) []core.Hit {
 	var out []core.Hit
@@ -516,123 +885,6 @@ func inside(hs []core.Hit, n ast.Node) []core.Hit {
 	return out
 }
 
-// baseNameOf reports whether e is a variable defined as filepath.Base(<parameter>) in f.
-func baseNameOf(f *core.Func, e ast.Expr) bool {
-	obj := identObj(f.Info(), e)
-	if obj == nil {
-		if call, ok := core.Unparen(e).(*ast.CallExpr); ok && f.CalleeID(call) == "path/filepath.Base" {
-			return true
-		}
-		return false
-	}
-	ok := false
-	n := 0
-	ast.Inspect(f.Body, func(x ast.Node) bool {
-		as, isA := x.(*ast.AssignStmt)
-		if !isA {
-			return true
-		}
-		for i, l := range as.Lhs {
-			if identObj(f.Info(), l) == obj {
-				n++
-				if len(as.Rhs) == len(as.Lhs) {
-					if call, isC := core.Unparen(as.Rhs[i]).(*ast.CallExpr); isC && f.CalleeID(call) == "path/filepath.Base" {
-						ok = true
-					}
-				}
-			}
-		}
-		return true
-	})
-	return ok && n == 1
-}
-
-// definedByCall reports whether e is an identifier with exactly one definition in f, by a call whose callee id equals id or whose method name equals meth.
-func definedByCall(f *core.Func, e ast.Expr, id, meth string) bool {
-	obj := identObj(f.Info(), e)
-	if obj == nil {
-		return false
-	}
-	ok := false
-	n := 0
-	ast.Inspect(f.Body, func(x ast.Node) bool {
-		as, isA := x.(*ast.AssignStmt)
-		if !isA {
-			return true
-		}
-		for i, l := range as.Lhs {
-			if identObj(f.Info(), l) == obj {
-				n++
-				if len(as.Rhs) == len(as.Lhs) {
-					if call, isC := core.Unparen(as.Rhs[i]).(*ast.CallExpr); isC {
-						cid := f.CalleeID(call)
-						if cid == id || strings.HasSuffix(cid, "."+meth) {
-							ok = true
-						}
-					}
-				}
-			}
-		}
-		return true
-	})
-	return ok && n == 1
-}
-
-func definedByMake(f *core.Func, e ast.Expr) bool {
-	obj := identObj(f.Info(), e)
-	if obj == nil {
-		return false
-	}
-	ok := false
-	n := 0
-	ast.Inspect(f.Body, func(x ast.Node) bool {
-		as, isA := x.(*ast.AssignStmt)
-		if !isA {
-			return true
-		}
-		for i, l := range as.Lhs {
-			if identObj(f.Info(), l) == obj {
-				n++
-				if len(as.Rhs) == len(as.Lhs) {
-					if call, isC := core.Unparen(as.Rhs[i]).(*ast.CallExpr); isC && f.CalleeID(call) == "builtin.make" && len(call.Args) == 1 {
-						ok = true
-					}
-				}
-			}
-		}
-		return true
-	})
-	return ok && n == 1
-}
-
-// derefsOf lists selector expressions hv.f in f that are not lexically inside the then-branch of one of the guards.
-func derefsOf(f *core.Func, hv types.Object, guards []*ast.IfStmt) []ast.Node {
-	var out []ast.Node
-	if hv == nil {
-		return nil
-	}
-	ast.Inspect(f.Body, func(n ast.Node) bool {
-		sel, ok := n.(*ast.SelectorExpr)
-		if !ok || identObj(f.Info(), sel.X) != hv {
-			return true
-		}
-		for _, g := range guards {
-			if g.Body.Pos() <= sel.Pos() && sel.End() <= g.Body.End() {
-				return true
-			}
-			// `ok && h.f` inside the condition itself
-			if g.Cond.Pos() <= sel.Pos() && sel.End() <= g.Cond.End() {
-				if be, isB := core.Unparen(g.Cond).(*ast.BinaryExpr); isB && be.Op == token.LAND && be.Y.Pos() <= sel.Pos() {
-					return true
-				}
-			}
-		}
-		out = append(out, sel)
-		return true
-	})
-	return out
-}
-
 // chain flattens a left-nested binary expression of the given operator into its operands, left to right.
 func chain(e ast.Expr, op token.Token) []ast.Expr {
 	e = core.Unparen(e)
@@ -641,3 +893,5 @@ func chain(e ast.Expr, op token.Token) []ast.Expr {
 	}
 	return []ast.Expr{e}
 }
+
+var _ = cfg.KindRangeLoop
